@@ -217,20 +217,8 @@ async fn exercise(label: u64, half: Half, counter: Counter) -> Result<u64, Strin
             tx.send(val(label, 2)).map_err(|e| format!("send: {}", e.without_item()))?;
             rx.recv().await.map_err(|e| format!("recv: {e}"))
         }
-        (Half::BinTx(tx), Counter::BinRx(rx)) => {
-            let (mut ctx, mut crx) = tokio::try_join!(async { tx.into_inner().await.map_err(|e| format!("bin tx: {e}")) }, async { rx.into_inner().await.map_err(|e| format!("bin rx: {e}")) })?;
-            ctx.send(Bytes::from(val(label, 1).to_le_bytes().to_vec())).await.map_err(|e| format!("send: {e}"))?;
-            let d = crx.recv().await.map_err(|e| format!("recv: {e}"))?.ok_or_else(|| "closed".to_string())?;
-            let v: Vec<u8> = d.into();
-            Ok(u64::from_le_bytes(v.try_into().map_err(|_| "size".to_string())?))
-        }
-        (Half::BinRx(rx), Counter::BinTx(tx)) => {
-            let (mut ctx, mut crx) = tokio::try_join!(async { tx.into_inner().await.map_err(|e| format!("bin tx: {e}")) }, async { rx.into_inner().await.map_err(|e| format!("bin rx: {e}")) })?;
-            ctx.send(Bytes::from(val(label, 2).to_le_bytes().to_vec())).await.map_err(|e| format!("send: {e}"))?;
-            let d = crx.recv().await.map_err(|e| format!("recv: {e}"))?.ok_or_else(|| "closed".to_string())?;
-            let v: Vec<u8> = d.into();
-            Ok(u64::from_le_bytes(v.try_into().map_err(|_| "size".to_string())?))
-        }
+        (Half::BinTx(tx), Counter::BinRx(rx)) => bin_exercise(tx, rx, val(label, 1)).await,
+        (Half::BinRx(rx), Counter::BinTx(tx)) => bin_exercise(tx, rx, val(label, 2)).await,
         (Half::LrTx(mut tx), Counter::LrRx(mut rx)) => {
             let (s, r) = tokio::join!(tx.send(val(label, 1)), rx.recv());
             s.map_err(|e| format!("send: {e}"))?;
@@ -243,6 +231,43 @@ async fn exercise(label: u64, half: Half, counter: Counter) -> Result<u64, Strin
         }
         (h, _) => Err(format!("half {h:?} has a counterpart of another kind (harness table broken)")),
     }
+}
+
+/// A small value with two channel halves that is sent over a (possibly forwarded) bin channel.
+#[derive(Serialize, Deserialize, Debug)]
+struct Inner {
+    v: u64,
+    tx: mpsc::Sender<u64>,
+    rx: oneshot::Receiver<u64>,
+}
+
+/// Raw bytes first, then a typed value containing halves (ports sent over the binary channel, which a
+/// forwarded bin channel has to relay with their ids).
+async fn bin_exercise(tx: bin::Sender, rx: bin::Receiver, v: u64) -> Result<u64, String> {
+    let (mut ctx, mut crx) = tokio::try_join!(async { tx.into_inner().await.map_err(|e| format!("bin tx: {e}")) }, async { rx.into_inner().await.map_err(|e| format!("bin rx: {e}")) })?;
+    ctx.send(Bytes::from(v.to_le_bytes().to_vec())).await.map_err(|e| format!("send: {e}"))?;
+    let d = crx.recv().await.map_err(|e| format!("recv: {e}"))?.ok_or_else(|| "closed".to_string())?;
+    let raw: Vec<u8> = d.into();
+    let got = u64::from_le_bytes(raw.try_into().map_err(|_| "size".to_string())?);
+    // typed layer on top of the same binary channel
+    let mut btx = remoc::rch::base::Sender::<Inner>::new(ctx);
+    let mut brx = remoc::rch::base::Receiver::<Inner>::new(crx);
+    let (mtx, mut mrx) = mpsc::channel::<u64, remoc::codec::Default>(2);
+    let (otx, orx) = oneshot::channel::<u64, remoc::codec::Default>();
+    let (s, r) = tokio::join!(btx.send(Inner { v, tx: mtx, rx: orx }), brx.recv());
+    s.map_err(|e| format!("value over bin channel: {e}"))?;
+    let inner = r.map_err(|e| format!("value over bin channel: recv: {e}"))?.ok_or_else(|| "value over bin channel: closed".to_string())?;
+    if inner.v != v {
+        return Ok(inner.v);
+    }
+    inner.tx.send(v + 7).await.map_err(|e| format!("inner mpsc send: {e}"))?;
+    let a = mrx.recv().await.map_err(|e| format!("inner mpsc recv: {e}"))?.ok_or_else(|| "inner mpsc closed".to_string())?;
+    otx.send(v + 9).map_err(|e| format!("inner oneshot send: {e}"))?;
+    let b = inner.rx.await.map_err(|e| format!("inner oneshot recv: {e}"))?;
+    if a != v + 7 || b != v + 9 {
+        return Err(format!("halves inside the value sent over the bin channel are mis-wired: got {a} and {b}, expected {} and {}", v + 7, v + 9));
+    }
+    Ok(got)
 }
 
 fn expected(half: &Half, label: u64) -> u64 {
@@ -305,11 +330,29 @@ pub fn run_one(run: u64, seed: u64) -> RunOut {
                 (r, tx)
             });
             let got = or_quiescent(rx.recv()).await;
-            let (sr, tx) = or_quiescent(send).await.ok_or_else(|| "send of the value pending at quiescence".to_string())?.map_err(|e| e.to_string())?;
-            sr.map_err(|e| format!("sending the value failed: {e}"))?;
+            let sent = or_quiescent(send).await;
+            let Some(Ok((sr, tx))) = sent else {
+                let mut rp = replay.clone();
+                rp["trace_tail"] = nets.last().map(|n: &std::sync::Arc<crate::simnet::Net>| n.trace_json(30)).unwrap_or_default();
+                out.viol("C05:value-not-delivered", format!("hop {}: sending the value ({n_halves} halves) is still pending at quiescence of a healthy connection", nets.len()), rp);
+                return Ok(());
+            };
+            if let Err(e) = sr {
+                out.viol("C05:value-not-delivered", format!("hop {}: sending the value failed on a healthy connection: {e}", nets.len()), replay.clone());
+                return Ok(());
+            }
             cur = match got {
                 Some(Ok(Some(v))) => v,
-                other => return Err(format!("value did not arrive: {:?}", other.map(|r| r.map(|o| o.is_some()).map_err(|e| e.to_string())))),
+                other => {
+                    let mut rp = replay.clone();
+                    rp["trace_tail"] = nets.last().map(|n: &std::sync::Arc<crate::simnet::Net>| n.trace_json(30)).unwrap_or_default();
+                    out.viol(
+                        "C05:value-not-delivered",
+                        format!("hop {}: the value ({n_halves} halves) was sent but receiving it gives {:?} at quiescence", nets.len(), other.map(|r| r.map(|o| o.is_some()).map_err(|e| e.to_string()))),
+                        rp,
+                    );
+                    return Ok(());
+                }
             };
             keep.push(Box::new((tx, rxa, ca, txb, rx, cb, sched)));
         }
